@@ -1832,4 +1832,47 @@ theorem addon_order_as_assumed :
     addonBefore "ProxyAuth" "NextLayer" = true := by
   decide +kernel
 
+/-! ## audit round 6 (cross-audit): further non-vacuity witnesses, evaluated by the kernel -/
+
+-- `auth_required_answer`: its hypothesis `hnone` holds after a NON-empty history (connection 1 of `hist0`, reverse mode,
+-- presented a Proxy-Authorization field — the wrong field for its path — and then nothing)
+example : ∀ e', (1, e') ∈ hist0.take 4 ++ [(1, Ev.req false false [])] →
+    presentsAccepted L0 single0 (modes0 1) e' = false := by
+  intro e' h
+  simp [hist0] at h
+  rcases h with h | h <;> subst h <;> decide +kernel
+
+-- `credential_header_removed`, branch `hs' = hs`: after a non-empty history in which connection 0 authenticated on its
+-- CONNECT, a later request is forwarded verbatim (the theorem's first conjunct; its second does not apply: `pre`
+-- contains an accepted presentation)
+example : (step L0 (some single0) (modes0 0) (finalState L0 (some single0) modes0 (State.init modes0) (hist0.take 3)) 0
+    (.req false false [⟨pa, [50]⟩])).2 = .fwd [⟨pa, [50]⟩] := by decide +kernel
+-- … and branch `hs' = hdrDel …` after a non-empty history without accepted credentials of that connection
+example : (step L0 (some single0) (modes0 1) (finalState L0 (some single0) modes0 (State.init modes0) (hist0.take 2)) 1
+    (.req false false [⟨strBytes "X-A", [49]⟩, ⟨strBytes "Authorization", cred0⟩])).2 = .fwd [⟨strBytes "X-A", [49]⟩] := by
+  decide +kernel
+
+-- the closed-form theorems (`mkauth_parses_closed`, `standard_credentials_accepted_on_every_path_closed`,
+-- `socks_standard_credentials_accepted`) quantify over libraries with `StdLibFull L` / a fixed `sockDecode`: such a
+-- library exists, and on it the conclusions are what the kernel computes
+private def Lfull : Lib where
+  isSpace := genIsSpace
+  lower := genLower
+  decodeCred := B64.decodeCredStd
+  sockDecode := fun b => B64.utf8decBS (b.map (·.toNat))
+  hashOk := fun h p => h == p
+
+example : StdLibFull Lfull := ⟨rfl, rfl, rfl⟩
+example : Lfull.sockDecode = fun b => B64.utf8decBS (b.map (·.toNat)) := rfl
+example : parseBasic Lfull (B64.mkauth [117] [112, 97, 58, 115, 115]) = some ([117], [112, 97, 58, 115, 115]) := by
+  decide +kernel
+-- a non-ASCII password (U+20AC) with a colon, presented as `Basic base64(utf8(u:p))` on the reverse path
+example : (step Lfull (some (.single [117] [0x20AC, 58, 120])) .reverse (State.init modes0) 1
+    (.req false false [⟨strBytes "authorization",
+      B64.strText "Basic" ++ 32 :: B64.b2a (B64.utf8enc ([117] ++ 58 :: [0x20AC, 58, 120]))⟩])).2 = .fwd [] := by
+  decide +kernel
+example : (step Lfull (some (.single [117] [0x20AC, 58, 120])) .socks5 ((State.init (fun _ => .socks5)).setPhase 0 .sAuth) 0
+    (.sAuth ((B64.utf8enc [117]).map UInt8.ofNat) ((B64.utf8enc [0x20AC, 58, 120]).map UInt8.ofNat))).2 = .sAuthOk := by
+  decide +kernel
+
 end MitmVerif.Props.C20
